@@ -101,6 +101,8 @@ JudgeRestart(e) ==
 Judge(e) ==
   CASE e.event = "Deliver" -> JudgeDeliver(e)
     [] e.event = "Restart" -> JudgeRestart(e)
+    [] e.event = "RestartFailed" -> <<"Inv.NodeCannotRestart">>   \* chain initialisation died over these stores
+    [] e.event = "Died" -> <<"Model.NodeDiedOnItsOwn">>            \* not a planned crash: the code panicked
     [] OTHER -> <<>>
 
 TraceInit == /\ l = 1 /\ bad = <<>> /\ tr = <<>> /\ txIds = <<>>
@@ -120,7 +122,7 @@ TraceNext ==
                      exp == Deliver(tr, pre, e.b)
                  IN /\ ms' = Obs(tr, txIds, e.state, exp.future, exp.verified, e.res)
                     /\ UNCHANGED <<tr, txIds, pend, cheads>>
-            [] e.event = "Crash" ->
+            [] e.event \in {"Crash", "Died"} ->
                  /\ pend' = CrashStates(e)
                  /\ cheads' = IF e.phase = "deliver"
                                 THEN HeadsOfCall(tr, Begin(tr, [ms EXCEPT !.pending = @ \cup (TxsOf(tr, e.b) \ ms.executed)], e.b))
